@@ -97,3 +97,20 @@ func (v *VerifNAT) Sizes() (int, int) {
 
 	return len(v.n.outboundMap), len(v.n.inboundMap)
 }
+
+// VerifAddrs returns the addresses assigned to the router's WAN interface (eth0).
+func (r *Router) VerifAddrs() []net.IP {
+	ifc, err := r.getInterface("eth0")
+	if err != nil {
+		return nil
+	}
+	addrs, _ := ifc.Addrs()
+	var out []net.IP
+	for _, a := range addrs {
+		if n, ok := a.(*net.IPNet); ok {
+			out = append(out, n.IP)
+		}
+	}
+
+	return out
+}
